@@ -83,7 +83,7 @@ class Scalar(Qube):
             if type(arg) == Qube.BOOLEAN_CLASS:
                 return Qube.BOOLEAN_CLASS(arg).as_int()
 
-            arg = Scalar(arg)
+            arg = Scalar(arg, derivs=arg._derivs_)
             if recursive:
                 return arg
             return arg.wod
